@@ -20,7 +20,8 @@ RULE = ("uniform: random UniformIce (index, range, index_above/below incl. None)
         "or AntarcticIce cut at 1-3 random depths compared with the unsplit tracer; stacks with exponential layers (firn over "
         "uniform bulk, firn over firn, uniform over firn: angle handed from group to group, exists, mirror law, Snell); "
         "completeness next to the cut-offs of the launch-angle grid: cut uniform ice with pairs within 1 degree of horizontal "
-        "(direct, level, surface-reflected), cut AntarcticIce with the receiver 0.03-2 % inside the shadow edge (direct_r_max), "
+        "(direct, level, surface-reflected), exactly vertical (rho == 0, receiver above / below, max_reflections 0..2) and "
+        "rho = 1e-12..1e-6 m, cut AntarcticIce with the receiver 0.03-2 % inside the shadow edge (direct_r_max), "
         "refracted paths launched 0.01-0.9 degree below a critical angle (forward Snell construction as reference); "
         "endpoints exactly on a range bound with explicit outside indices; integer-valued endpoints handed over as Python ints, "
         "int lists, int64 and float32 arrays (uniform and layered tracers, against the model, the image construction and the "
@@ -466,7 +467,7 @@ def split_build(data):
         layers = [U(n, valid_range=(edges[i + 1], edges[i]), index_above=None, index_below=None)
                   for i in range(len(edges) - 1)]
         lice = LayeredIce(layers, index_above=ab, index_below=be)
-        unsplit = lambda A, B: _with(rt.UniformRayTracer(A, B, full), max_reflections=1)
+        unsplit = lambda A, B: _with(rt.UniformRayTracer(A, B, full), max_reflections=data.get("max_reflections", 1))
     else:
         C = getattr(im, params.get("cls", "AntarcticIce"))
         full = C()
@@ -526,6 +527,7 @@ def check_split(run, kind, report, data=None):
         with np.errstate(all="ignore"):
             us = unsplit(A, B).solutions
             ltr = LayeredRayTracer(A, B, lice)
+            ltr.max_reflections = data.get("max_reflections", 1)
             ls = list(ltr.solutions)
             [(s_.path_length, s_.tof, s_.fresnel, s_.emitted_direction, s_.received_direction) for s_ in ls]
     except Exception as e:
@@ -885,6 +887,28 @@ def special_split(run, which):
     """cut media whose unsplit solutions have launch angles within a degree of a validity cut-off of the index path"""
     rt, im, LayeredIce, LayeredRayTracer = _mods()
     r = run.rng
+    if which in ("vertical", "near-vertical"):
+        # identical x, y (rho == 0 exactly) or rho = 1e-12 .. 1e-6 m; receiver below or above the source; cuts between and
+        # beside the endpoints
+        n = r.uniform(1.3, 1.9)
+        lo = -r.uniform(400, 2500)
+        ab, be = r.choice([1, 1.0, r.uniform(1.0, 1.3)]), r.choice([None, r.uniform(1.0, 2.4)])
+        zA, zB = r.uniform(lo * 0.9, -5), r.uniform(lo * 0.9, -5)
+        if abs(zA - zB) < 3:
+            zB = zA - 40.0 if zA - 40.0 > lo * 0.95 else zA + 4.0
+        cuts = {round(0.5 * (zA + zB), 3)} | {round(r.uniform(lo * 0.95, -2), 3) for _ in range(r.randint(0, 2))}
+        cuts = sorted(cuts, reverse=True)
+        for c in cuts:
+            if abs(zA - c) < 0.5:
+                zA = c - 0.7
+            if abs(zB - c) < 0.5:
+                zB = c - 0.7
+        rho = 0.0 if which == "vertical" else 10 ** r.uniform(-12, -6)
+        az = r.uniform(0, 2 * math.pi)
+        A = [r.uniform(-300, 300), r.uniform(-300, 300), zA]
+        B = [A[0], A[1], zB] if rho == 0.0 else [A[0] + rho * math.cos(az), A[1] + rho * math.sin(az), zB]
+        return {"kind": "uniform", "params": {"n": n, "lo": lo, "above": ab, "below": be, "cuts": cuts}, "A": A, "B": B,
+                "special": which, "max_reflections": r.choice([0, 1, 2])}
     if which in ("horizontal", "horizontal-reflected", "level"):
         n = r.uniform(1.3, 1.9)
         lo = -r.uniform(600, 2500)
@@ -1238,7 +1262,8 @@ def search(run, deep):
         oracle_gradient_stack(run, gradient_stack_case(run))
     # completeness next to the cut-offs of the launch-angle search: within a degree of horizontal, of the shadow edge
     # (unsplit tracer as reference) and of a critical angle (forward Snell construction as reference)
-    for which, m in (("horizontal", 6), ("level", 2), ("horizontal-reflected", 3), ("shadow-edge", 6)):
+    for which, m in (("horizontal", 6), ("level", 2), ("horizontal-reflected", 3), ("shadow-edge", 6), ("vertical", 8),
+                     ("near-vertical", 4)):
         for i in range(m if not deep else 10 * m):
             run.count("complete_" + which)
             check_split(run, None, report, data=special_split(run, which))
